@@ -34,6 +34,10 @@ static unsigned char *map_view(int fd, int prot) {
     if (r == MAP_FAILED) { perror("mmap"); exit(2); }
     if (mmap(r + PG, DATA, prot, MAP_SHARED | MAP_FIXED, fd, 0) == MAP_FAILED) { perror("mmap2"); exit(2); }
     if (guard_prot != PROT_NONE) {
+        /* write-trap mode: the guards are readable but hold non-zero bytes, so an over-read neither
+           faults (that is C02's business) nor finds a convenient terminator */
+        mprotect(r, PG, PROT_READ | PROT_WRITE); memset(r, 0xEE, PG);
+        mprotect(r + PG + DATA, PG, PROT_READ | PROT_WRITE); memset(r + PG + DATA, 0xEE, PG);
         mprotect(r, PG, guard_prot);
         mprotect(r + PG + DATA, PG, guard_prot);
     }
@@ -213,7 +217,7 @@ static int dest_usable(const Fn *f, const Case *c) {
 
 static void materialise(Ctx *x) {
     const Fn *f = x->fn; const Case *c = x->c;
-    int dro = (f->flags & F_QRY) ? 1 : 0;
+    int dro = 0;
     /* dest */
     x->dbytes = (size_t)c->d_obj * f->dunit;
     if (c->d_huge >= 2) { x->dl = none_pg; x->dh = NULL; x->dbytes = 0; }
@@ -221,6 +225,7 @@ static void materialise(Ctx *x) {
         size_t off = obj_off(c->place, x->dbytes);
         x->dh = slot[SL_D].h + off;
         x->dl = (dro ? slot[SL_D].ro : slot[SL_D].rw) + off;
+        if (c->place == 0) memset(x->dh - 128, 0xEE, 128); else memset(x->dh + x->dbytes, 0xEE, 128);
         long ne = x->dbytes / f->w;
         if (c->d_pk == 2) {
             memset(x->dh, 0xAA, x->dbytes);
@@ -241,6 +246,7 @@ static void materialise(Ctx *x) {
         size_t off = obj_off(c->place, x->sbytes);
         x->sh = slot[SL_S].h + off;
         x->sl_ = slot[SL_S].ro + off;
+        if (c->place == 0) memset(x->sh - 128, 0xEE, 128); else memset(x->sh + x->sbytes, 0xEE, 128);
         long ne = x->sbytes / f->sw;
         if (c->s_k == 2) {
             for (long i = 0; i < ne; i++) eset(x->sh, f->sw, i, i < c->sxn ? c->sx[i] : 0xAA);
@@ -311,7 +317,7 @@ static void do_call(Ctx *x) {
     }
     cur = NULL;
     progress++;
-    switch (f->rt) { case RT_E: case RT_I: x->rc = (int)x->rc; break; case RT_B: x->rc = (unsigned char)x->rc; break; default: break; }
+    switch (f->rt) { case RT_E: case RT_I: case RT_V: x->rc = (int)x->rc; break; case RT_B: x->rc = (unsigned char)x->rc; break; default: break; }
     if (o_h && !x->fault) {
         x->out_set = memcmp(o_h, "\x5A\x5A\x5A\x5A\x5A\x5A\x5A\x5A", o_sz) != 0;
         if (o_sz == 4) { int v; memcpy(&v, o_h, 4); x->out = v; } else memcpy(&x->out, o_h, 8);
@@ -332,11 +338,20 @@ static void analyze(const Ctx *x, Ref *r) {
     if (has_tok(f, "S") || has_tok(f, "T")) {
         if (c->s_null) { nv++; code = ESNULLP_; }
         if (has_tok(f, "l") && c->s_huge >= 2) { nv++; code = ESLEMAX_; }
+        if (has_tok(f, "l") && has_tok(f, "bs") && c->s_bos && !c->s_null && c->slen * f->sunit > x->sbytes) { nv++; code = 0; }   /* which code is not uniform in the docs */
     }
     if (c->o_null) { nv++; code = ESNULLP_; }
     /* a zero-length request: which (if any) of the other constraints is still checked is not
        demanded (documented shortcuts differ per function); only i-iii of C05 apply */
-    if ((has_tok(f, "l") && c->slen == 0) || (has_tok(f, "k") && c->k == 0)) { r->verdict = V_ANY; if (nv == 0 && f->ref) f->ref(x, r); if (nv) r->verdict = V_ANY; return; }
+    if ((has_tok(f, "l") && c->slen == 0) || (has_tok(f, "k") && c->k == 0)) {
+        r->verdict = V_ANY;
+        if (nv == 0 && f->ref && !(f->flags & F_QRY)) f->ref(x, r);
+        return;
+    }
+    if (f->flags & F_LAX) {   /* no reporting demanded for this API (strnlen_s/wcsnlen_s/timingsafe_*: no runtime-constraints documented) */
+        if (nv) { r->verdict = V_ANY; return; }
+    }
+    if ((f->flags & F_DMAX0OK) && c->dmax == 0) { r->verdict = V_ANY; return; }   /* a zero size is a zero-length request for these */
     if (nv) { r->verdict = V_FAIL; r->code = nv == 1 ? code : 0; return; }
     r->verdict = V_ANY;
     if (c->d_huge == 1 || c->s_huge == 1) return;   /* limit-sized operands: snapshots are partial, no reference */
@@ -351,6 +366,7 @@ static int failed_ind(const Ctx *x, int *codep) {
     switch (f->rt) {
     case RT_E: *codep = (int)x->rc; return x->rc != 0 && !is_plain((int)x->rc);
     case RT_I: *codep = (int)-x->rc; return x->rc < 0;
+    case RT_V: return -1;
     case RT_P: *codep = (int)x->out; return x->out_set ? (x->out != 0 && !is_plain((int)x->out)) : (x->rc == 0);
     default: return -1;
     }
@@ -449,7 +465,8 @@ static void oracle(Ctx *x) {
 
     if (P == 3) {
         if (!(f->flags & F_SP) || !usable) return;
-        if ((f->flags & F_NOSL0) && has_tok(f, "l") && c->slen == 0 && !c->s_null) return;
+        /* the documented exception: a zero-length request that succeeds and leaves dest untouched */
+        if (has_tok(f, "l") && c->slen == 0 && failed <= 0 && !x->h_n && !memcmp(x->dh, x->dsnap, x->dbytes)) return;
         for (long i = 0; i < nel; i++) if (!eget(x->dh, f->w, i)) return;
         report(x, "unterminated|%s|%s", failed > 0 || x->h_n ? "fail" : "ok", relclass(x, b2));
         return;
@@ -460,12 +477,14 @@ static void oracle(Ctx *x) {
         int code = x->h_n ? x->h_code[0] : fcode;
         if (eget(x->dh, f->w, 0) != 0) { report(x, "dest0-nonzero|code%d|%s", code, relclass(x, b2)); return; }
         long allz = 1;
+        if (strcmp(g_variant, "prod")) nel = 0;   /* no-slack build: documented to clear only the first element */
         for (long i = 0; i < nel; i++) {
             unsigned long v = eget(x->dh, f->w, i), p0 = eget(x->dsnap, f->w, i);
             if (v) allz = 0;
             if (v != 0 && v != p0) { report(x, "partial-result-left|code%d|%s", code, relclass(x, b2)); return; }
         }
-        if (!strcmp(g_variant, "prod") && !(f->flags & F_CE1) && !allz &&
+        int entry_nospc = has_tok(f, "l") && c->slen * f->sunit > c->dmax * f->dunit;   /* rejected before copying began */
+        if (!strcmp(g_variant, "prod") && !(f->flags & F_CE1) && !allz && !entry_nospc &&
             (code == ESNOSPC_ || code == ESOVRLP_ || code == ESUNTERM_ || (code == ESNULLP_ && c->s_null)))
             report(x, "not-all-cleared|code%d|%s", code, relclass(x, b2));
         if (x->sh && memcmp(x->sh, x->ssnap, x->sbytes < sizeof x->ssnap ? x->sbytes : sizeof x->ssnap))
@@ -476,8 +495,6 @@ static void oracle(Ctx *x) {
     if (P == 5) {
         if (x->h_n > 1) { report(x, "handler-invoked-%dx|codes%d,%d|%s", x->h_n, x->h_code[0], x->h_code[1], relclass(x, b2)); return; }
         if (x->h_n == 1) {
-            int want_kind = (f->flags & F_MEMH) ? 1 : 0;
-            if (x->h_kind[0] != want_kind) report(x, "wrong-handler-kind|%s", relclass(x, b2));
             if (failed == 0) { report(x, "handler-but-success|code%d|%s", x->h_code[0], relclass(x, b2)); return; }
             if (failed > 0 && !(f->flags & F_ERRNO) && fcode != x->h_code[0]) {
                 report(x, "code-mismatch|handler%d-ret%d|%s", x->h_code[0], fcode, relclass(x, b2)); return; }
@@ -520,6 +537,8 @@ static void oracle(Ctx *x) {
         }
         if (x->sh && memcmp(x->sh, x->ssnap, x->sbytes < sizeof x->ssnap ? x->sbytes : sizeof x->ssnap))
             report(x, "source-modified|%s", relclass(x, b2));
+        if (P == 10 && x->dh && memcmp(x->dh, x->dsnap, x->dbytes < sizeof x->dsnap ? x->dbytes : sizeof x->dsnap))
+            report(x, "operand-modified|%s", relclass(x, b2));
         return;
     }
     if (P == 8) {
@@ -632,11 +651,11 @@ void gen_generic(int fi) {
                     c.s_len = L; c.s_term = term; c.slen = slen; c.s_bos = sbos; c.s_k = 0;
                     if (src_str) {
                         if (term) c.s_obj = has_l ? (long)((size_t)(L + 1) < slen ? (size_t)(L + 1) : slen) : L + 1;
-                        else { if ((size_t)L != slen) continue; c.s_obj = L; }   /* unterminated: exactly fills slen */
-                        if (has_l && term && slen == 0) c.s_obj = 0;
+                        else { if ((size_t)L != slen) continue; c.s_obj = L ? L : 1; }   /* unterminated: exactly fills slen */
+                        if (has_l && term && slen == 0) c.s_obj = 1;   /* zero-length request: first element readable (DESIGN 4) */
                     } else {
                         if (L != 0) continue;                 /* counted array: length is slen itself */
-                        c.s_obj = slen; c.s_len = slen; c.s_term = 0;
+                        c.s_obj = slen ? slen : 1; c.s_len = slen; c.s_term = 0;
                         if (f->flags & F_SAMELEN) { c.s_obj = nel; c.s_len = nel; }
                     }
                     for (int ic = 0; ic < ncv; ic++) {
@@ -652,7 +671,7 @@ void gen_generic(int fi) {
     {
         int dnull_v[] = {0, 1};
         struct { size_t dmax; int huge; } dmv[6]; int ndmv = 0;
-        dmv[ndmv].dmax = 3 * (f->w / f->dunit ? 1 : f->w); dmv[ndmv++].huge = 0;
+        dmv[ndmv].dmax = 3 * f->w / f->dunit; dmv[ndmv++].huge = 0;   /* three elements */
         dmv[ndmv].dmax = 0; dmv[ndmv++].huge = 0;
         if (f->lim == LIM_STR || f->lim == LIM_WSTR) { dmv[ndmv].dmax = fn_limit(f); dmv[ndmv++].huge = 1; }
         dmv[ndmv].dmax = fn_limit(f) + 1; dmv[ndmv++].huge = 2;
@@ -671,6 +690,7 @@ void gen_generic(int fi) {
         for (int sbos = 0; sbos <= (has_bs ? 1 : 0); sbos++)
         for (int ion = 0; ion <= (has_o ? 1 : 0); ion++)
         for (int pk = 0; pk < 2; pk++) {
+            if ((f->flags & F_NONULL) && (idn || isn)) continue;   /* no documented null-pointer constraint */
             memset(&c, 0, sizeof c);
             c.fn = fi; c.place = place; c.d_null = dnull_v[idn];
             c.dmax = dmv[idm].dmax; c.d_huge = dmv[idm].huge; c.d_bos = dbos;
@@ -680,15 +700,19 @@ void gen_generic(int fi) {
             else c.d_obj = c.dmax;
             if (dbos == 2) {   /* known object smaller than the declared dmax */
                 if (c.d_huge || c.dmax < 2) continue;
-                c.d_obj = c.dmax - 1 * (f->w / f->dunit ? 1 : f->w);
+                c.d_obj = c.dmax - f->w / f->dunit;                /* one element less than declared */
                 if (c.d_obj <= 0) continue;
             }
             long nel = c.d_obj * f->dunit / f->w;
             c.d_pk = pk; c.d_pl = pk ? (nel > 1 ? 1 : 0) : 0;
             if (pk && nel < 1) continue;
             c.s_null = isn; c.slen = slv[isl].slen; c.s_huge = slv[isl].huge; c.s_bos = sbos;
-            c.s_len = 2; c.s_term = 1; c.s_obj = src_str ? 3 : (c.s_huge ? 4 : (long)c.slen);
-            if (src_str && has_l && !c.s_huge && c.slen < 3) c.s_obj = c.slen;
+            c.s_len = 2; c.s_term = 1; c.s_obj = src_str ? 3 : (c.s_huge ? 4 : (c.slen ? (long)c.slen : 1));
+            if (src_str && has_l && !c.s_huge && c.slen < 3) c.s_obj = c.slen ? c.slen : 1;
+            if (!src_str && c.s_huge == 1) {   /* a counted array declared at the limit really is that large */
+                if (c.slen * f->sunit > DATA) continue;
+                c.s_obj = c.slen;
+            }
             if (!src_str) { c.s_len = c.s_obj; c.s_term = 0; }
             if ((f->flags & F_SAMELEN) && c.d_huge < 2) { c.s_obj = c.d_obj > 0 ? c.d_obj : 1; c.s_len = c.s_obj; }
             c.o_null = ion; c.c = 'a'; c.k = 1;
@@ -700,7 +724,7 @@ void gen_generic(int fi) {
 /* query alphabet enumeration (C10 and the query side of C02/C05): explicit contents */
 void gen_query(int fi) {
     const Fn *f = &fntab[fi];
-    static const unsigned char alpha_q[] = { 'a', 'A', 'b', '1', ' ', 0x80 };
+    static const unsigned char alpha_q[] = { 'a', 0x80, 'A', '1', ' ', 'b' };
     int na = g_tier ? 5 : 4;
     int maxlen = g_tier ? 4 : 3;
     int has_src = has_tok(f, "S") || has_tok(f, "T");
